@@ -81,3 +81,10 @@ Definition T_roundUp : Prop := forall n : N,
   exists k, go_sessions_roundUpPowerOfTwo64 (Z.of_N n) = Some (Z.of_N (2 ^ k))
             /\ go_service_roundUpPowerOfTwo64 (Z.of_N n) = Some (Z.of_N (2 ^ k))
             /\ n <= 2 ^ k /\ 2 ^ k < 2 * n.
+
+(* message.nextPacketID = Codec.Impl.next_pid: the identifier handed out and the counter afterwards (a uint64: it
+   wraps at 2^64), for every value of the counter; the loop needs at most two rounds *)
+Definition T_nextPacketID : Prop := forall c : N,
+  c < 2 ^ 64 ->
+  go_message_nextPacketID (Z.of_N c) =
+  Some (Z.of_N (snd (next_pid c)), Z.of_N (fst (next_pid c) mod 2 ^ 64)).
